@@ -48,26 +48,80 @@ func VerifSetPeerListRng(l *PeerList, src rand.Source) {
 	l.Unlock()
 }
 
-// VerifSetPeerLoad gives the peer the stated numbers of inbound / outbound connections and
-// pending outbound calls, as NumConnections and NumPendingOutbound report them.  The
-// connections are inert objects that only carry an exchange set.
-func VerifSetPeerLoad(p *Peer, inbound, outbound, pending int) {
-	mk := func(n int) []*Connection {
-		var cs []*Connection
+// VerifConnLoad is one inert connection of a peer: the numbers of entries of its two exchange
+// sets.  Out = calls WE make over the connection (what NumPendingOutbound must count, whoever
+// dialled the connection), In = calls the peer makes to us over it (never counted).
+type VerifConnLoad struct{ In, Out int }
+
+func verifInertConn(l VerifConnLoad) *Connection {
+	// every field a load accessor could plausibly read is a real object, so that a mixed-up
+	// field yields a wrong number, not a nil dereference
+	mk := func(n int, name string) *messageExchangeSet {
+		s := &messageExchangeSet{name: name, exchanges: map[uint32]*messageExchange{}, expiredExchanges: map[uint32]struct{}{}}
 		for i := 0; i < n; i++ {
-			cs = append(cs, &Connection{outbound: &messageExchangeSet{exchanges: map[uint32]*messageExchange{}}})
+			s.exchanges[uint32(i+1)] = &messageExchange{msgID: uint32(i + 1), msgType: messageTypeCallReq}
 		}
-		return cs
+		// ids of exchanges that timed out earlier (kept by the library to recognise late frames): not load
+		for i := 0; i <= n%3; i++ {
+			s.expiredExchanges[uint32(1000+i)] = struct{}{}
+		}
+		return s
 	}
-	in, out := mk(inbound), mk(outbound)
-	all := append(append([]*Connection{}, out...), in...)
-	for i := 0; i < pending && len(all) > 0; i++ {
-		all[i%len(all)].outbound.exchanges[uint32(i)] = nil
+	return &Connection{inbound: mk(l.In, "inbound"), outbound: mk(l.Out, "outbound")}
+}
+
+// VerifSetPeerConns gives the peer exactly these inert inbound / outbound connections.
+func VerifSetPeerConns(p *Peer, inbound, outbound []VerifConnLoad) {
+	var in, out []*Connection
+	for _, l := range inbound {
+		in = append(in, verifInertConn(l))
+	}
+	for _, l := range outbound {
+		out = append(out, verifInertConn(l))
 	}
 	p.Lock()
 	p.inboundConnections = in
 	p.outboundConnections = out
 	p.Unlock()
+}
+
+// VerifPeerConnLoads reads, field by field, the sizes of the two exchange sets of every live
+// connection of the peer (inbound list, outbound list): an accessor that shares no code with
+// NumPendingOutbound.
+func VerifPeerConnLoads(p *Peer) (inbound, outbound []VerifConnLoad) {
+	rd := func(c *Connection) VerifConnLoad {
+		c.inbound.RLock()
+		i := len(c.inbound.exchanges)
+		c.inbound.RUnlock()
+		c.outbound.RLock()
+		o := len(c.outbound.exchanges)
+		c.outbound.RUnlock()
+		return VerifConnLoad{In: i, Out: o}
+	}
+	p.RLock()
+	defer p.RUnlock()
+	for _, c := range p.inboundConnections {
+		inbound = append(inbound, rd(c))
+	}
+	for _, c := range p.outboundConnections {
+		outbound = append(outbound, rd(c))
+	}
+	return
+}
+
+// VerifSetPeerLoad gives the peer the stated numbers of inbound / outbound connections and
+// pending outbound calls (spread round-robin over all connections, inbound ones first), as
+// NumConnections and NumPendingOutbound report them.
+func VerifSetPeerLoad(p *Peer, inbound, outbound, pending int) {
+	in, out := make([]VerifConnLoad, inbound), make([]VerifConnLoad, outbound)
+	for i := 0; i < pending && inbound+outbound > 0; i++ {
+		if k := i % (inbound + outbound); k < inbound {
+			in[k].Out++
+		} else {
+			out[k-inbound].Out++
+		}
+	}
+	VerifSetPeerConns(p, in, out)
 }
 
 // VerifChannelUpdatePeer runs Channel.updatePeer(p): what connection and exchange changes call.
